@@ -306,6 +306,42 @@ func main() {
 			fail("owner reference is not the NodePool", "")
 		}
 	}
+	// ---- sibling NodeClaims of one NodePool (NewNodeClaim copies the template shallowly): the launch request of one
+	// must not be altered by building the other's (seeded change C13-1)
+	for i := 0; i < nPools/2; i++ {
+		r := c.Rand.Fork()
+		np := test.NodePool()
+		np.Name, np.UID = "shared", "uid"
+		np.Spec.Template.Labels = map[string]string{"example.com/team": "a"}
+		vals := []string{"x", "y", "z"}
+		np.Spec.Template.Spec.Requirements = []v1.NodeSelectorRequirementWithMinValues{{Key: "example.com/k1", Operator: corev1.NodeSelectorOpIn, Values: vals}}
+		base := provscheduling.NewNodeClaimTemplate(np)
+		base.InstanceTypeOptions = its
+		var sib []*provscheduling.NodeClaimTemplate
+		var pins []string
+		for j := 0; j < r.Range(2, 3); j++ {
+			t := *base // as NewNodeClaim does
+			t.Requirements = scheduling.NewRequirements(base.Requirements.Values()...)
+			pin := kit.Pick(r, vals)
+			t.Requirements.Add(scheduling.NewRequirement("example.com/k1", corev1.NodeSelectorOpIn, pin))
+			sib = append(sib, &t)
+			pins = append(pins, pin)
+		}
+		var ncs []*v1.NodeClaim
+		for _, t := range sib {
+			ncs = append(ncs, t.ToNodeClaim())
+		}
+		id := c.NextID()
+		c.Count("siblings")
+		c.AddCase("CaseEmit [] [] true []", caseJSON{Kind: "sibling-nodeclaims", NodePool: fmt.Sprintf("pins=%v", pins)}, fmt.Sprintf("sib:%v", pins))
+		for j, nc := range ncs {
+			if nc.Labels["example.com/k1"] != pins[j] {
+				c.Fail(id, fmt.Sprintf("NodeClaim %d of a batch from one NodePool carries label example.com/k1=%q but its requirement pins %q (labels of sibling NodeClaims are shared)", j, nc.Labels["example.com/k1"], pins[j]), "",
+					caseJSON{Kind: "sibling-nodeclaims", NodePool: fmt.Sprintf("pins=%v", pins)})
+				break
+			}
+		}
+	}
 	_ = metav1.Now
 	_ = cloudprovider.InstanceTypes{}
 	_ = sort.Strings
